@@ -159,6 +159,22 @@ def load_known():
         return json.load(f)
 
 
+def _pf(sig, i):
+    try:
+        return float(sig['params'][i])
+    except Exception:
+        return None
+
+
+# named parameter predicates usable from known_findings.json ("pred": name); sig['params'] holds
+# the case parameters as decimal strings
+PREDICATES = {
+    'fisher_f_den_dof_is_1': lambda sig: _pf(sig, 1) == 1.0,
+    'student_t_dof_is_1': lambda sig: _pf(sig, 0) == 1.0,
+    'poisson_lambda_ge_1e14': lambda sig: (_pf(sig, 0) or 0) >= 1e14,
+}
+
+
 def match_known(prop, sig, known):
     """sig: dict describing a violation; a finding matches when every key of its 'match' dict equals
     (or, for list values, contains) the violation's value."""
@@ -166,10 +182,19 @@ def match_known(prop, sig, known):
         if k.get('property') != prop:
             continue
         ok = True
+        if k.get('pred') and not PREDICATES[k['pred']](sig):
+            continue
+        pbf = k.get('pred_by_fam')
+        if pbf and (sig.get('fam') not in pbf or not PREDICATES[pbf[sig.get('fam')]](sig)):
+            continue
         for key, want in k.get('match', {}).items():
             have = sig.get(key)
             if isinstance(want, list):
                 if have not in want:
+                    ok = False
+                    break
+            elif isinstance(want, dict) and 'has' in want:
+                if not (isinstance(have, (list, tuple)) and want['has'] in have):
                     ok = False
                     break
             elif isinstance(want, dict):
